@@ -239,17 +239,23 @@ def run_others(col):
 
 SRC = {"A": ["tbl", "ta", None, None], "B": ["tbl", "tb", None, None], "C": ["tbl", "tc", "sch", None], "AX": ["tbl", "ta", None, "x"],
        # same table name in another schema, and an alias that equals another table's name: same rendered namespace, different tables
-       "AS": ["tbl", "ta", "s1", None], "AS2": ["tbl", "ta", ["d", "s1"], None], "BA": ["tbl", "tb", None, "ta"]}
+       "AS": ["tbl", "ta", "s1", None], "AS2": ["tbl", "ta", ["d", "s1"], None], "BA": ["tbl", "tb", None, "ta"],
+       # two references to one CTE under aliases of their own (a self-join of the CTE), and the bare reference
+       "CP": ["cte", "cc", "p"], "CQ": ["cte", "cc", "q"], "CC": ["cte", "cc"]}
 KEYS = tuple(SRC)
 NAMES = ("a", "b")
 
 
 def ident(spec):
+    if spec[0] == "cte":
+        return ("cte:" + spec[1], None, spec[2] if len(spec) > 2 and spec[2] else spec[1])  # a bare reference answers to the CTE's own name
     sch = spec[2]
     return (spec[1], tuple(sch) if isinstance(sch, list) else ((sch,) if sch else None), spec[3])
 
 
 def lib_ident(t):
+    if type(t).__name__ == "AliasedQuery":
+        return ("cte:" + t.name, None, t.alias)
     sch = getattr(t, "_schema", None)
     path = []
     while sch is not None:
@@ -371,7 +377,7 @@ def collect_check(node):
         return ("collect_raises:" + type(e).__name__, "fields_() / tables_ of the expression raised %r" % (e,))
     if got != want:
         return ("fields_lost" if want - got else "fields_invented", "fields_() = %s, expression mentions %s" % (sorted(map(str, got)), sorted(map(str, want))))
-    want_t = {p[0] for p in want}
+    want_t = {p[0] for p in want if not str(p[0][0]).startswith("cte:")}  # tables_ collects Table objects; a CTE reference is not one
     got_t = {lib_ident(x) for x in t.tables_}
     if got_t != want_t:
         return ("tables_lost" if want_t - got_t else "tables_invented", "tables_ = %s, expression mentions %s" % (sorted(map(str, got_t)), sorted(map(str, want_t))))
